@@ -761,6 +761,27 @@ func (x *Exec) conv(tdst, tsrc types.Type, v value) value {
 			}
 		}
 		if ud.Kind() == types.UnsafePointer {
+			// pointer -> unsafe.Pointer is kept as the same cell pointer, remembering the static type it came
+			// from; only the round trip back to that very type is supported (atomic.Pointer[T], sync.Map).
+			// A cast that reinterprets memory (e.g. *[]byte -> *string) stays unsupported.
+			if pt, isPtr := us.(*types.Pointer); isPtr {
+				if p, ok := v.(*value); ok {
+					if p == nil {
+						return (*value)(nil)
+					}
+					if x.unsafeT == nil {
+						x.unsafeT = map[*value]types.Type{}
+					}
+					if old, seen := x.unsafeT[p]; seen && !types.Identical(old, pt) {
+						panic(unsupported{"one cell converted to unsafe.Pointer from two pointer types"})
+					}
+					x.unsafeT[p] = pt
+					return p
+				}
+			}
+			if b, isB := us.(*types.Basic); isB && b.Kind() == types.UnsafePointer {
+				return v
+			}
 			panic(unsupported{"conversion to unsafe.Pointer"})
 		}
 		t, ok := v.(*Term)
@@ -819,7 +840,22 @@ func (x *Exec) conv(tdst, tsrc types.Type, v value) value {
 		if sl, ok := v.(sliceVal); ok {
 			return sl
 		}
-	case *types.Pointer, *types.Signature, *types.Struct, *types.Map, *types.Interface, *types.Array:
+	case *types.Pointer:
+		if b, isB := us.(*types.Basic); isB && b.Kind() == types.UnsafePointer {
+			p, ok := v.(*value)
+			if !ok {
+				panic(unsupported{"conversion from unsafe.Pointer"})
+			}
+			if p == nil {
+				return x.zero(tdst)
+			}
+			if from, seen := x.unsafeT[p]; seen && types.Identical(from, ud) {
+				return p
+			}
+			panic(unsupported{fmt.Sprintf("unsafe.Pointer reinterpreted as %s", tdst)})
+		}
+		return v
+	case *types.Signature, *types.Struct, *types.Map, *types.Interface, *types.Array:
 		return v
 	}
 	panic(unsupported{fmt.Sprintf("unsupported conversion: %s -> %s (%T)", tsrc, tdst, v)})
